@@ -151,6 +151,9 @@ func runCheck(prop, tier, repo, verif string, seed int, controls bool) (code int
 	reg.Count("library_functions_analysed", len(w.FuncList))
 	pf(a, reg)
 	runDeps(prop, a, reg)
+	if os.Getenv("GMSA_TIMING") != "" {
+		fmt.Printf("TIMING property=%s work_units=%d wall=%.1fs\n", prop, workUnits, time.Since(start).Seconds())
+	}
 	if tier == "thorough" {
 		runThorough(a, reg, ri, prop, repo, verif)
 	}
